@@ -73,7 +73,7 @@ CHECKS["C06"] = dict(
     text="Coq theorem over WHOLE RUNS of the full stack model (every scenario and schedule, invariant kept by every callback / loop step / run): the server listeners' notifications are a truthful, strictly alternating history - latest notification 'subscribed, accepted' exactly when the subscription is stored; 'subscribed' only for a subscription that is not live, 'unsubscribed' only for one that is; a rejected subscription is neither recorded nor reported gone. Also: Coq theorems about the abstract per-(instance,subscriber,subscription) history specification (alternation for every input history, rejected never recorded or reported, reboot before the same message's Subscribe, TTL restarted by refresh) and about handle_subscribe (listener consulted before recording, exactly one queue_send). End-to-end refinement not proved; checked on every run by exact trace correspondence and check_C06 (incl. positive-Ack-implies-recorded).",
     design="6 (C06)", technique="Coq proof over the abstract history specification + function-level theorems + exact trace correspondence + extracted checker", note=STACK_NOTE)
 CHECKS["C09"] = dict(
-    text="Coq theorem over WHOLE RUNS of the full stack model (every scenario and schedule; ghost history of (re)storings with their TTL and of expiries; invariant kept by every callback / loop step / run): every expiry happened exactly TTL seconds after the LATEST refresh of that entry, never for the infinite TTL; every stored entry with a timer has it due exactly TTL after its latest refresh; with the ownership invariants: exactly once, no stale timer. Also: Coq theorems: (A) the TimedStore algorithm as an abstract machine keeps 'live expiry timers <-> stored entries with a timer, one to one' for EVERY sequence of refresh/stop/remove-where/firing (no stale timer, infinite TTL owns none, removed entry has none); (B) the history specification expires exactly once exactly at t0+ttl, never earlier, is postponed/cancelled by a refresh, silent after removal. (C) refinement of the loop model not proved; checked on every run (both stores, deadlines +-1 tick, same-iteration coincidences both orders).",
+    text="The model's TimedStore operations (refresh, stop, _expired, the loop body of stop_all_for_address) are proved equal to the control flow translated from the source text of sd.py on every run (gen_ts_* in Generated/LogicGen.v, Proofs/GenSkel.v). Coq theorem over WHOLE RUNS of the full stack model (every scenario and schedule; ghost history of (re)storings with their TTL and of expiries; invariant kept by every callback / loop step / run): every expiry happened exactly TTL seconds after the LATEST refresh of that entry, never for the infinite TTL; every stored entry with a timer has it due exactly TTL after its latest refresh; with the ownership invariants: exactly once, no stale timer. Also: Coq theorems: (A) the TimedStore algorithm as an abstract machine keeps 'live expiry timers <-> stored entries with a timer, one to one' for EVERY sequence of refresh/stop/remove-where/firing (no stale timer, infinite TTL owns none, removed entry has none); (B) the history specification expires exactly once exactly at t0+ttl, never earlier, is postponed/cancelled by a refresh, silent after removal. (C) refinement of the loop model not proved; checked on every run (both stores, deadlines +-1 tick, same-iteration coincidences both orders).",
     design="6 (C09)", technique="Coq proof by invariant over all operation sequences (abstract TimedStore machine) + specification theorems + exact trace correspondence + extracted checker", note=STACK_NOTE)
 CHECKS["C15"] = dict(
     text="Coq theorems over WHOLE RUNS of the full stack model, every scenario and schedule (ghost history, invariant kept by every callback / loop step / run): per destination handed over ++ pending = queued; a collector timeout runs at most once; every pending timeout within [now, now+timeout]; a completed run leaves no overdue collector. Also for EVERY sequence of queue requests and collector firings (abstract machine mirroring queue_send/collector_timeout): per destination transmitted ++ pending = queued (no loss, duplication, reordering, mixing); case-by-case theorems of the model functions (zero timeout immediate, append, new collector with one timer at now+timeout, timeout sends exactly the collected entries). Deadline clause through the loop checked on every run (check_C15).",
